@@ -199,6 +199,12 @@ pub fn check(hdr: &str, lines: &[String], trace: &[(String, Vec<String>)], mon: 
     let mut restart_cleared = false;
     let mut app_iin: u8 = 0;
     let mut bc_pending: Option<(u8, bool)> = None; // (mode, certain): uncertain = may already have been reported inside the same op
+    // the unsolicited response awaiting its confirm carried IIN1.0 / a broadcast was processed after it was written
+    let mut unsol_reported_bc = false;
+    let mut bc_since_unsol = false;
+    // an unsolicited confirm arrived while a broadcast indication was pending that the confirmed response had not
+    // reported: the indication must survive (dropping it is defect D16)
+    let mut d16_watch = false;
     // ---- C14 state
     let mut unsol_confirmed_once = false;
     let mut unsol_waiting: Option<u8> = None;
@@ -334,8 +340,9 @@ pub fn check(hdr: &str, lines: &[String], trace: &[(String, Vec<String>)], mon: 
                 let _ = src;
                 if let Some(s) = sel {
                     let between = &delivered[idx + 1..];
-                    // the immediately preceding fragment is that SELECT or a retransmission of it
-                    let all_repeats = between.last().map(|d| d.frag == s.frag).unwrap_or(true);
+                    // every fragment delivered between that SELECT and the OPERATE is a retransmission of the
+                    // SELECT by the master (anything else, a confirm or a foreign fragment included, breaks "directly")
+                    let all_repeats = between.iter().all(|d| d.frag == s.frag && d.processed);
                     let fresh = now - s.time <= cfg.stimeout;
                     ok = all_repeats && fresh && s.select_ok && s.op >= session_start_op;
                     if !all_repeats && fresh && s.select_ok {
@@ -393,7 +400,12 @@ pub fn check(hdr: &str, lines: &[String], trace: &[(String, Vec<String>)], mon: 
                         if mine_same_seq != theirs {
                             let only_iin = mine_same_seq.len() == theirs.len()
                                 && mine_same_seq.iter().zip(theirs.iter()).all(|(a, b)| a.len() == b.len() && (a[0] & !0x20) == (b[0] & !0x20) && a[1] == b[1] && a[4..] == b[4..]);
-                            fail(mon, hdr, "repeat_nonread_same_bytes", if only_iin { "D14" } else { "" }, &format!("op {k} vs op {j}"));
+                            // D14 (repaired): the echo of a repeated non-READ request re-ORed the current IIN.
+                            // D31: a request whose OBJECTS do not parse is classified as malformed before the
+                            // duplicate check, so its repeat is answered afresh (current IIN); nothing is executed
+                            let malformed = a.iter().any(|x| x.contains("malformed"));
+                            let cause = if only_iin && malformed { "D31" } else if only_iin { "D14" } else { "" };
+                            fail(mon, hdr, "repeat_nonread_same_bytes", cause, &format!("op {k} vs op {j}"));
                         }
                     }
                 }
@@ -432,8 +444,9 @@ pub fn check(hdr: &str, lines: &[String], trace: &[(String, Vec<String>)], mon: 
         if delivered_now && accepted_master && !is_bc && func != Some(0) {
             last_req_seq = seq;
         }
-        if delivered_now && herr && frag.as_ref().map(|f| f.2.len() >= 2).unwrap_or(false) {
-            // error responses are correlated with the offending fragment too
+        if delivered_now && herr && accepted_master && !is_bc && frag.as_ref().map(|f| f.2.len() >= 2).unwrap_or(false) {
+            // error responses are correlated with the offending fragment too (a foreign master's or a
+            // broadcast fragment with a header error is not answered: D6 repaired)
             last_req_seq = seq;
         }
         for x in &t {
@@ -539,6 +552,18 @@ pub fn check(hdr: &str, lines: &[String], trace: &[(String, Vec<String>)], mon: 
             (Some((_, _, f)), Some((_, p))) => f == p && !outs.iter().any(|o| exec_cb(o)),
             _ => false,
         };
+        // did the unsolicited response that an unsolicited confirm of this op acknowledges report the pending
+        // indication?  (it carried IIN1.0 and no broadcast was processed after it was written)
+        let unsol_confirm_reports = unsol_reported_bc && !bc_since_unsol;
+        for o in outs {
+            if o.starts_with("cb broadcast") {
+                bc_since_unsol = true;
+            } else if let Some(r) = o.strip_prefix("cb unsol_wait ") {
+                let sq: u8 = r.trim().parse().unwrap();
+                unsol_reported_bc = t.iter().any(|x| x.bytes.len() >= 4 && x.bytes[1] == 0x82 && (x.bytes[0] & 0x0F) == sq && x.bytes[2] & 0x01 != 0);
+                bc_since_unsol = false;
+            }
+        }
         if has_cb(outs, "cb broadcast") {
             let mode = match frag.as_ref().map(|f| f.1) {
                 Some(0xFFFF) => 0,
@@ -547,17 +572,24 @@ pub fn check(hdr: &str, lines: &[String], trace: &[(String, Vec<String>)], mon: 
             };
             // transmissions of this same op may have happened before or after the broadcast was processed
             bc_pending = Some((mode, t.is_empty()));
+            d16_watch = false;
         }
-        if has_cb(outs, "cb sol_confirmed") || has_cb(outs, "cb unsol_confirmed") {
+        if has_cb(outs, "cb sol_confirmed") {
+            // inside a solicited confirm wait every broadcast aborts the wait: the confirmed response was written
+            // after the broadcast and reported it
             if matches!(bc_pending, Some((1, _))) {
                 bc_pending = None;
-            } else if let Some((m, true)) = bc_pending {
-                if has_cb(outs, "cb unsol_confirmed") {
-                    // known finding D16: accepting an unsolicited confirm drops a pending broadcast
-                    // indication of ANY mode although no response has reported it yet
-                    fail(mon, hdr, "broadcast_bit_rule", "D16", &format!("op {k}: broadcast (mode {m}) indication dropped by an unsolicited confirm before it was reported"));
+            }
+        } else if has_cb(outs, "cb unsol_confirmed") {
+            // an unsolicited confirm ends a confirm-mandatory indication only if the confirmed unsolicited
+            // response itself reported it; an indication recorded during the wait (any mode) survives the
+            // confirm and is reported by the next response (dropping it is defect D16, repaired)
+            if unsol_confirm_reports {
+                if matches!(bc_pending, Some((1, _))) {
                     bc_pending = None;
                 }
+            } else if matches!(bc_pending, Some((_, true))) {
+                d16_watch = true;
             }
         } else if func == Some(0) && !herr && delivered_now && accepted_master && seq.is_some() && frag.as_ref().map(|f| f.2[0] & 0x10 == 0).unwrap_or(false) && matches!(bc_pending, Some((1, _))) && unsol_waiting.is_some() {
             // a solicited confirm handled inside the unsolicited wait clears a mandatory broadcast silently; whether
@@ -598,8 +630,13 @@ pub fn check(hdr: &str, lines: &[String], trace: &[(String, Vec<String>)], mon: 
                 match bc_pending {
                     Some((mode, true)) if !in_broadcast_op => {
                         if !bc {
-                            fail(mon, hdr, "broadcast_bit_rule", "", &format!("op {k}: broadcast bit missing"));
+                            if d16_watch {
+                                fail(mon, hdr, "broadcast_bit_rule", "D16", &format!("op {k}: broadcast (mode {mode}) indication dropped by an unsolicited confirm before it was reported"));
+                            } else {
+                                fail(mon, hdr, "broadcast_bit_rule", "", &format!("op {k}: broadcast bit missing"));
+                            }
                         }
+                        d16_watch = false;
                         if mode == 1 && b[1] == 0x81 && b[0] & 0x20 == 0 {
                             fail(mon, hdr, "broadcast_bit_rule", "", &format!("op {k}: mandatory broadcast without CON"));
                         }
@@ -690,9 +727,9 @@ pub fn check(hdr: &str, lines: &[String], trace: &[(String, Vec<String>)], mon: 
                 } else {
                     pending_deferred = None;
                 }
-            } else if delivered_now && herr {
+            } else if delivered_now && herr && accepted_master {
                 pending_deferred = None;
-            } else if delivered_now && is_bc {
+            } else if delivered_now && is_bc && accepted_master {
                 pending_deferred = None;
             }
         }
